@@ -8,7 +8,7 @@ SPEC = {
         Suite(name="endpoint", harness="vh_endpoint", runner="endpoint", godev=True,
               model_deps=["theories/Model/Endpoint.vo"],
               quick_n=1200, thorough_n=12000,
-              rule="95% sessions of 1..4 requests on a fresh storage directory through the REAL handler built by "
+              rule="10% batches: 2..4 rounds of 4..16 valid uploads of ONE week that has no directory yet (different X), posted by goroutines released at the same moment through the real handler; every answer must be 2xx and every object stored. 85% sessions of 1..4 requests on a fresh storage directory through the REAL handler built by "
                    "telemetrygodev's newHandler (mux + Log, Timeout, RequestSize, Recover + handleUpload + validate; file "
                    "system buckets), called via httptest (60% with an honest Content-Length; 36% with http.Request.ContentLength set by hand: -1, 0, one less / one more / 1000 more than the body, the limit, limit+1, 10x limit, 2^26, 2^50, 2^55, 2^62, max int64; 3% with a body reader that fails with a transport error after k bytes; 6% from a raw TCP client over a real listener: honest length, chunked coding in 1..3 chunks, an absurd declared length with limit+1 bytes sent, ILL-FRAMED chunked messages (non-hex / negative / empty / over-wide chunk size, data not followed by CRLF, bare LF, malformed trailer, control bytes) with the connection kept open): 85% POST, 15% GET/PUT/DELETE/HEAD/PATCH/OPTIONS/'post'; bodies: "
                    "23% valid reports (0..3 approved programs, counters, stacks with frames, X over denormal..1.8e308 and "
@@ -56,7 +56,7 @@ SPEC = {
                   "quantifier, see seeded/builder-notes/C12.md; the suite never sends one), the Log middleware, HTTP transport beyond the sampled real-listener cases (no Expect: 100-continue, no pipelining, no aborted "
                   "connections), the ServeMux path cleaning (URL paths are kept canonical; a non-canonical path is "
                   "answered 3xx by the mux before the handler), I/O errors of the bucket other than name collisions, "
-                  "concurrent uploads of the same object (os.Create truncates in place), the GCS backend. The request "
+                  "concurrent uploads of the SAME object (os.Create truncates in place; concurrent uploads of different objects are covered: C12_batch_any_order + batch cases), the GCS backend. The request "
                   "size limit is the server's configured MaxRequestBytes (default 100 KiB, read from the real config by "
                   "the harness); the model only sees size_ok. X in (0,1] is not enforced by the server: negative and "
                   "huge X are accepted (the property only asks X != 0). Trusted: Coq kernel+VM, extraction, OCaml glue, "
